@@ -248,7 +248,7 @@ pub fn suite(name: &str, cfg: Cfg, tables: Tables, ops: Vec<Op>, depth: usize) -
         depth,
         shadow: None,
         log_io: false,
-        max_heavy: if cfg.persistent { 2 } else { 0 },
+        max_heavy: 0,
         readback: true,
     }
 }
@@ -261,39 +261,193 @@ pub fn disk(format: u32, cache: bool, ttl: bool) -> Cfg {
     c
 }
 
-/// All sequential suites, by name. `thorough` deepens every bound by one.
+/// Values whose record image ends exactly at (or within 8 bytes of) a block
+/// boundary under the v1 header (4+2+1+16 = 23 bytes for a one-byte key): the v1
+/// and v2/v3 extent lengths differ for them.
+pub fn edge_tables() -> Tables {
+    let mut t = std_tables();
+    t.values = vec![
+        b"x".to_vec(),
+        big_value(4096 - 23, 0x31),     // exactly one block in v1, two in v2/v3
+        big_value(4096 - 23 - 8, 0x32), // exactly one block in v2/v3
+        big_value(2 * 4096 - 23, 0x33), // exactly two blocks in v1
+        big_value(4096 - 23 + 1, 0x34), // two blocks in every format
+    ];
+    t
+}
+
+pub fn edge_ops() -> Vec<Op> {
+    let a = 0u8;
+    let b = 1u8;
+    vec![
+        ins(a, 1),
+        ins(a, 2),
+        ins(a, 3),
+        ins(a, 4),
+        ins(b, 0),
+        ins(b, 1),
+        Op::Delete { k: a, ts: 0 },
+        Op::Delete { k: b, ts: 0 },
+        Op::Get(a),
+        Op::Get(b),
+        Op::Flush,
+        Op::Reopen,
+    ]
+}
+
+/// Focused single-key alphabet for the storage tiers (resident / buffered / on
+/// disk / cached / deferred TTL rewrite), deep.
+pub fn tier_focus_ops(ttl: bool) -> Vec<Op> {
+    let a = 0u8;
+    let mut v = vec![
+        ins(a, V_X),
+        ins(a, V_Y),
+        Op::Delete { k: a, ts: 0 },
+        Op::Get(a),
+        Op::Flush,
+        Op::Reopen,
+        Op::Cas { k: a, expect: V_X, new: V_Y, ts: 0, ttl: 0 },
+        Op::Incr { k: a, delta: 1, ts: 0, ttl: 0 },
+        ins_ts(a, V_X, TS_B),
+        Op::Tick,
+    ];
+    if ttl {
+        v.push(Op::UpdateTtl { k: a, secs: 1000 });
+        v.push(Op::Persist(a));
+        v.push(ins_ttl(a, V_X, 1, 0));
+        v.push(Op::Advance(3));
+    }
+    v
+}
+
+pub fn limit_disk_ops() -> Vec<Op> {
+    let a = 0u8;
+    let b = 1u8;
+    vec![
+        ins(a, V_X),
+        ins(a, V_BIG2),
+        Op::Insert { k: a, v: V_BIG2, ts: 0, ttl: 0, bytes: true },
+        ins(b, V_BIG2),
+        ins(b, V_X),
+        Op::Cas { k: a, expect: V_X, new: V_BIG2, ts: 0, ttl: 0 },
+        Op::Delete { k: a, ts: 0 },
+        Op::Delete { k: b, ts: 0 },
+        Op::Get(a),
+        Op::Flush,
+        Op::Reopen,
+    ]
+}
+
+/// Timestamp-focused alphabet: automatic and explicit (past, future, equal, extreme)
+/// timestamps over every write kind, including calls that fail while carrying a
+/// large explicit timestamp.
+pub fn ts_tables() -> Tables {
+    let mut t = std_tables();
+    t.values.truncate(4);
+    t.values.push(Vec::new()); // index 4: empty value -> InvalidValueSize
+    t
+}
+
+pub fn ts_ops(persistent: bool, ttl: bool) -> Vec<Op> {
+    let a = 0u8;
+    let b = 1u8;
+    let mut v = vec![
+        ins(a, V_X),
+        ins_ts(a, V_Y, TS_B),
+        ins_ts(a, V_X, FUT),
+        ins_ts(a, V_X, FUT + 5),
+        ins_ts(a, V_Y, u64::MAX),
+        Op::Insert { k: a, v: 4, ts: FUT + 7, ttl: 0, bytes: false }, // fails: empty value
+        Op::Insert { k: a, v: V_CNT, ts: 0, ttl: 0, bytes: true },
+        Op::Delete { k: a, ts: 0 },
+        Op::Delete { k: a, ts: FUT + 3 },
+        Op::Cas { k: a, expect: V_X, new: V_Y, ts: 0, ttl: 0 },
+        Op::Cas { k: a, expect: V_JSON, new: V_Y, ts: FUT + 9, ttl: 0 }, // mismatch: must not consume
+        Op::Incr { k: a, delta: 1, ts: 0, ttl: 0 },
+        Op::Incr { k: a, delta: 1, ts: FUT + 1, ttl: 0 },
+        Op::Ifa { k: a, v: V_JSON },
+        Op::Patch { k: a, p: 0, ts: 0 },
+        Op::Patch { k: a, p: 1, ts: FUT + 11 }, // failing test op with a huge timestamp
+        ins(b, V_X),
+        ins_ts(b, V_X, FUT + 2),
+        Op::Delete { k: b, ts: 0 },
+    ];
+    if ttl {
+        v.push(Op::UpdateTtl { k: a, secs: 1000 });
+        v.push(ins_ttl(a, V_X, 1000, 0));
+    }
+    if persistent {
+        v.push(Op::Flush);
+        v.push(Op::Reopen);
+    }
+    v
+}
+
+/// All sequential suites: (suite with its quick depth, thorough depth).
 pub fn all_suites(thorough: bool) -> Vec<Suite> {
-    let d = |q: usize| if thorough { q + 1 } else { q };
+    let d = |q: usize, t: usize| if thorough { t } else { q };
+    let overhead = std::mem::size_of::<feoxdb::core::record::Record>();
     let mut v = Vec::new();
-    v.push(suite("mem-core", Cfg::memory(), std_tables(), core_ops(), d(3)));
+    v.push(suite("mem-core", Cfg::memory(), std_tables(), core_ops(), d(4, 5)));
     let mut mt = Cfg::memory();
     mt.ttl = true;
-    v.push(suite("mem-ttl", mt, std_tables(), ttl_ops(false), d(3)));
+    v.push(suite("mem-ttl", mt, std_tables(), ttl_ops(false), d(4, 5)));
     let mut ml = Cfg::memory();
     // room for one small record plus one 5000-byte record, not two big ones
-    let overhead = std::mem::size_of::<feoxdb::core::record::Record>();
     ml.max_memory = Some(2 * overhead + 2 + 5000 + 16);
-    v.push(suite("mem-limit", ml, std_tables(), limit_ops(), d(4)));
+    v.push(suite("mem-limit", ml, std_tables(), limit_ops(), d(5, 6)));
     let me = Cfg::memory();
-    v.push(suite("mem-errors", me, error_tables(&me), error_ops(), d(2)));
+    v.push(suite("mem-errors", me, error_tables(&me), error_ops(), d(2, 3)));
     for (format, cache) in [(3, true), (3, false), (2, true), (1, true)] {
         let cfg = disk(format, cache, false);
-        v.push(suite(
+        let mut s = suite(
             &format!("disk-v{format}{}", if cache { "" } else { "-nocache" }),
             cfg,
             std_tables(),
             tier_ops(format == 3 && cache),
-            d(3),
-        ));
+            d(3, 4),
+        );
+        s.max_heavy = 2;
+        v.push(s);
     }
     for format in [3, 1] {
         let cfg = disk(format, true, true);
-        v.push(suite(&format!("disk-v{format}-ttl"), cfg, std_tables(), ttl_ops(true), d(2)));
+        let mut s = suite(&format!("disk-v{format}-ttl"), cfg, std_tables(), ttl_ops(true), d(2, 3));
+        s.max_heavy = 2;
+        v.push(s);
     }
+    // deep, focused
+    for (name, cfg) in [
+        ("focus-v3", disk(3, true, false)),
+        ("focus-v3-nocache", disk(3, false, false)),
+        ("focus-v3-ttl", disk(3, true, true)),
+        ("focus-v2-ttl", disk(2, true, true)),
+        ("focus-v3-ttl-nocache", disk(3, false, true)),
+    ] {
+        v.push(suite(name, cfg, std_tables(), tier_focus_ops(cfg.ttl), d(6, 8)));
+    }
+    for format in [1, 2, 3] {
+        v.push(suite(&format!("edge-v{format}"), disk(format, true, false), edge_tables(), edge_ops(), d(4, 6)));
+    }
+    let mut tm = Cfg::memory();
+    tm.ttl = true;
+    v.push(suite("ts-mem", tm, ts_tables(), ts_ops(false, true), d(4, 5)));
+    let mut tl = Cfg::memory();
+    tl.max_memory = Some(overhead + 1 + 8 + 4); // one small record only: creating b fails
+    v.push(suite("ts-mem-limit", tl, ts_tables(), ts_ops(false, false), d(4, 5)));
+    for format in [1, 2, 3] {
+        let cfg = disk(format, true, format != 1);
+        let mut s = suite(&format!("ts-disk-v{format}"), cfg, ts_tables(), ts_ops(true, format != 1), d(3, 4));
+        s.max_heavy = 3;
+        v.push(s);
+    }
+    let mut dl = disk(3, true, false);
+    dl.max_memory = Some(2 * overhead + 2 + 5000 + 16);
+    v.push(suite("disk-limit", dl, std_tables(), limit_disk_ops(), d(5, 6)));
     let de = disk(3, true, false);
     v.push(suite("disk-errors", de, error_tables(&de), error_ops(), 2));
     let d1 = disk(1, true, false);
-    v.push(suite("disk-v1-errors", d1, error_tables(&d1), error_ops(), 1));
+    v.push(suite("disk-v1-errors", d1, error_tables(&d1), error_ops(), d(1, 2)));
     v
 }
 
